@@ -11,6 +11,8 @@ C11.b reuse only if all chunks are indexed: in Parent::process a file is reporte
   parent) only if `all(|id| index.has_data(id))` over the parent's content holds; otherwise NotFound (re-read).
 C11.c = C07.d (unchanged-tree shortcut compares ids).
 C11.d `force` means no parent; stdin backups force.
+C11.g unset LocalSourceSaveOptions fall back to the documented defaults: set_ctime = yes (the file's own ctime is recorded,
+  so ctime-only changes are seen by the parent match), set_atime = mtime.
 C11.e the parent-tree cursor advances only past names that sort before the current name.
 """
 import re
@@ -31,6 +33,8 @@ def run(ctx, rep):
     for r, tx in (("C11.a", "match predicate compares type, size, mtime and (unless ignored) ctime"), ("C11.b", "content is reused only if all chunks are indexed"),
                   ("C11.d", "force disables parents"), ("C11.e", "parent cursor discipline")):
         rep.rule(r, tx)
+    rep.rule("C11.g", "unset source options fall back to their documented defaults (set_ctime: the file's real ctime)")
+    option_defaults_rule(ctx, rep, "C11.g")
     # C11.c = C07.d: the unchanged-tree shortcut compares ids
     rep.rule("C11.c", "a tree is taken as unchanged only if its fresh id equals the parent's id (= C07.d)")
     from rules import C07
@@ -292,3 +296,59 @@ def _upvar_name(body, idx):
         if isinstance(p, list) and p[0] == 1 and any(isinstance(e, list) and e[0] == "f" and e[1] == idx for e in p[1:]):
             return n
     return None
+
+
+DOC_DEFAULTS = {"set_atime": "Mtime", "set_ctime": "Yes"}
+
+
+def option_defaults_rule(ctx, rep, R):
+    """the value used for an unset `LocalSourceSaveOptions` option is the documented default (`set_ctime` [default: yes],
+    `set_atime` [default: mtime]): every `Option::unwrap_or(<variant>)` whose receiver is
+    such a field - directly or as the argument of a local closure shared between options - passes the documented variant.
+    With `set_ctime` defaulting to anything but `yes` the recorded ctime is not the file's ctime and parent matching no
+    longer sees ctime-only changes."""
+    prog = ctx.prog
+    ME = prog.find1(r"^rustic_core::backend::ignore::mapper::LocalSourceSaveOptions::map_entry$")
+    fam = [ME] + prog.closures_of(ME)
+    seen = {}
+    for F in fam:
+        for bb, t in F.calls():
+            if "callee" not in t or not re.search(r"Option::<T>::unwrap_or$", callee(t)) or len(t["args"]) != 2:
+                continue
+            d = flow.expr_of(F, t["args"][1], bb)
+            if not (d[0] == "agg" and d[1][0] == "adt" and d[1][1].startswith("rustic_core::")):
+                continue
+            variant = d[1][2]
+            r = flow.expr_of(F, t["args"][0], bb)
+            fields = set()
+            if r[0] == "path" and r[2] and not r[2][-1].isdigit():
+                fields.add(r[2][-1])
+            elif r[0] == "path" and isinstance(r[1], tuple) and r[1][0] == "arg" and F.is_closure():
+                # a parameter of a local closure: the fields handed to it at its call sites
+                k = r[1][1]
+                for P in fam:
+                    for cb, ct in P.calls():
+                        if ct.get("callee") == F.path or (ct.get("resolved") or {}).get("path") == F.path:
+                            args = ct["args"]
+                            # Fn::call(&closure, (a, b)) or direct call (closure, a, b)
+                            ex = [flow.expr_of(P, a_, cb) for a_ in args]
+                            cand = []
+                            if len(ex) == 2 and ex[1][0] == "agg" and ex[1][1][0] == "tuple":
+                                cand = list(ex[1][2])
+                            else:
+                                cand = ex[1:]
+                            if 0 <= k - 2 < len(cand):
+                                a_ = cand[k - 2]
+                                if a_[0] == "path" and a_[2] and not a_[2][-1].isdigit():
+                                    fields.add(a_[2][-1])
+            for f_ in fields:
+                seen.setdefault(f_, set()).add(variant)
+    for f_, want in sorted(DOC_DEFAULTS.items()):
+        got = seen.get(f_, set())
+        if not got:
+            # no `unwrap_or(<variant>)` on this option (e.g. an explicit match on the Option): form not recognised, not decided
+            rep.check(R, f"default/{f_}", True, where=ME.loc(), what=f"the default of {f_} is not spelled as unwrap_or(<variant>): not decided here", nontrivial=False)
+            continue
+        ok = got == {want}
+        rep.check(R, f"default/{f_}", ok, where=ME.loc(), what=f"an unset {f_} behaves as the documented default `{want.lower()}`" if ok else
+                  f"an unset {f_} falls back to {sorted(got) or 'no recognisable default'} instead of the documented `{want.lower()}`" + (": the recorded ctime is then not the file's ctime, ctime-only changes are invisible to parent matching" if f_ == "set_ctime" else ""))
